@@ -14,8 +14,8 @@ from . import leanrun
 
 VERIF = leanrun.VERIF
 REPO = os.environ.get("VERIF_REPO", "/repo")
-EVIDENCE_DIR = os.path.join(VERIF, "evidence")
-REPLAY_DIR = os.path.join(VERIF, "replays")
+EVIDENCE_DIR = os.environ.get("VERIF_EVIDENCE_DIR", os.path.join(VERIF, "evidence"))
+REPLAY_DIR = os.environ.get("VERIF_REPLAY_DIR", os.path.join(VERIF, "replays"))
 CORPUS_DIR = os.path.join(VERIF, "corpus")
 KNOWN_FILE = os.path.join(VERIF, "known_findings.json")
 
